@@ -160,17 +160,60 @@ def validate(fam, d, wd):
     if os.path.exists(cache):
         c = json.load(open(cache))
         return [(a, [tuple(x) for x in b]) for a, b in c["reports"]], c["states"], c["transitions"], c["accepted"]
-    rc, out, td = vlib.tlc(fam.trace_spec, fam.trace_cfg, wd, workers=1,
-                           env={"VERIF_TRACE": os.path.join(d, "corpus.ndjson")}, timeout=3600, xmx="6g")
-    states, trans = vlib.tlc_stats(out)
-    accepted = "TRACE-END" in out and rc == 0
-    if not accepted:
-        open(os.path.join(d, "tlc.out"), "w").write(out)
-        raise Inconclusive("trace validation did not consume the corpus (TLC rc=%d); output in %s" % (rc, os.path.join(d, "tlc.out")))
-    reps = vlib.scenario_reports(out)
+    # a large corpus is validated in pieces cut at scenario boundaries (every scenario starts
+    # from its own Reset record, so the pieces are independent): TLC holds the whole trace in memory
+    pieces = split_corpus(os.path.join(d, "corpus.ndjson"), wd, 120000)
+    states = trans = 0
+    reps = []
+    accepted = True
+    for pi, piece in enumerate(pieces):
+        rc, out, td = vlib.tlc(fam.trace_spec, fam.trace_cfg, wd, workers=1, env={"VERIF_TRACE": piece}, timeout=3600, xmx="6g")
+        st, tr = vlib.tlc_stats(out)
+        states += st
+        trans += tr
+        if "TRACE-END" not in out or rc != 0:
+            open(os.path.join(d, "tlc.out"), "w").write(out)
+            shutil.copy(piece, os.path.join(d, "rejected-piece.ndjson"))
+            raise Inconclusive("trace validation did not consume piece %d/%d of the corpus (TLC rc=%d); output in %s" % (
+                pi + 1, len(pieces), rc, os.path.join(d, "tlc.out")))
+        reps += vlib.scenario_reports(out)
+        shutil.rmtree(td, ignore_errors=True)
+        if piece != os.path.join(d, "corpus.ndjson"):
+            os.remove(piece)
     json.dump({"reports": reps, "states": states, "transitions": trans, "accepted": accepted}, open(cache, "w"))
     shutil.rmtree(td, ignore_errors=True)
     return reps, states, trans, accepted
+
+
+def split_corpus(path, wd, max_lines):
+    """Cuts the corpus into files of at most about max_lines lines, at Reset records; each
+    piece ends with its own End record. A small corpus is returned as it is."""
+    n = sum(1 for _ in open(path))
+    if n <= max_lines:
+        return [path]
+    pieces = []
+    out = None
+    count = 0
+    end = json.dumps({"ev": "End", "seq": 0, "inst": ""}) + "\n"
+    for line in open(path):
+        is_reset = '"ev":"Reset"' in line[:400] or (line.startswith("{") and '"ev": "Reset"' in line[:400])
+        is_end = '"ev":"End"' in line[:60]
+        if is_end:
+            continue
+        if out is None or (is_reset and count >= max_lines):
+            if out is not None:
+                out.write(end)
+                out.close()
+            p = os.path.join(wd, "piece%03d.ndjson" % len(pieces))
+            pieces.append(p)
+            out = open(p, "w")
+            count = 0
+        out.write(line)
+        count += 1
+    if out is not None:
+        out.write(end)
+        out.close()
+    return pieces
 
 
 def scenario_lines(d, name):
